@@ -963,8 +963,9 @@ func genRegistry(r *Rng, n int, tier string) []Case {
 				return fmt.Sprintf("add kind=baduri uri=%s %s", hexs([]byte(u)), flags)
 			}
 		}
-		// directed histories outside the tame ones (known findings F07, F08): a record that failed to load loads again
-		// after its port was given away; an explicit id that is listed as invalid is used again and CleanDatabase runs
+		// directed histories: (known finding F07, outside the tame histories) a record that failed to load loads again
+		// after its port was given away; (finding F08, fixed) an explicit id that is listed as invalid is used again,
+		// then CleanDatabase, the stats writer, CompactDatabase and a restart must all find the new record
 		if d := r.Intn(100); d < 3 {
 			lo2 := 20000 + r.Intn(40000)
 			ops = []string{fmt.Sprintf("open lo=%d hi=%d resume=%s plant=-", lo2, lo2+1, b01(r.Bool())),
@@ -979,8 +980,8 @@ func genRegistry(r *Rng, n int, tier string) []Case {
 			ops = append(ops,
 				fmt.Sprintf("add kind=t tid=1 ih=%s name=n1 trk=u1 ws=- id=e1 stopped=1 sad=0 sam=0 seq=0 np=1", regInfoHashN(1, "n1", 1)),
 				fmt.Sprintf("reopen resume=1 spoil=1:%s", r.PickS("bitfield", "info", "infohash")),
-				fmt.Sprintf("add kind=t tid=2 ih=%s name=n2 trk=- ws=- id=e1 stopped=1 sad=0 sam=0 seq=0 np=1", regInfoHashN(2, "n2", 1)),
-				"clean")
+				fmt.Sprintf("add kind=t tid=2 ih=%s name=n2 trk=- ws=- id=e1 stopped=%s sad=0 sam=0 seq=0 np=1", regInfoHashN(2, "n2", 1), b01(r.Bool())),
+				"clean", "flush", "compact", "bfcheck", fmt.Sprintf("reopen resume=%s", b01(r.Bool())), "clean")
 			cases = append(cases, Case{ID: fmt.Sprintf("registry-%d", i+1), Ops: ops})
 			continue
 		}
